@@ -300,6 +300,7 @@ def run(ctx, prog, res):
                     r9.check("@Val.0" in m.group(1), {"fn": fid.split("::")[-1], "pred_of": m.group(1)}, "C07.R9:pred:%s" % fid.split("::")[-1], "%s takes the predecessor of %s, which is not the payload of a Frame::Val" % (fid, m.group(1)), lib.where_of(fn))
     r9.floor(6)
     rule_r10(ctx, prog, res)
+    rule_r11(prog, res)
 
 
 def _is_loop_exhausted_exit(f, bb, loops):
@@ -379,3 +380,18 @@ def rule_r10(ctx, prog, res):
         msg = "`%d-%d%s` is folded into the paving as the years [%s, %s) but its filter says %s for %d: normalization changes the years the rule applies to" % (s, e, "/%d" % k if k != 1 else "", ab[0], ab[1] if ab[1] is not None else "end", f, y)
     r10.check(bad is None, {"year_ranges": len(ys) ** 2, "steps": [1, 2, 3, 10, 65000], "folded": folded, "evaluations": n}, "C07.R10:year", msg, lib.where_of(tmc[0]))
     r10.check(folded >= len(ys) ** 2, {"ranges_folded": folded}, "C07.R10:FLOOR", "FLOOR: only %d of the year ranges were folded (every unstepped range is expected to be)" % folded, lib.where_of(tmc[0]))
+
+
+def rule_r11(prog, res):
+    r11 = res.rule("C07.R11", "a dimension of the paving holds only what its type can express: the month dimension holds whole months of every year and the weekday dimension plain weekdays, so a *dated* range (MonthdayRange::Date - days, years, offsets, Easter) and a holiday selector (WeekDayRange::Holiday) are never folded - their arm of try_make_canonical answers None on every path. Folding dates into months could only be right where the dates are month boundaries in every year (29 February), which needs the dated filter by value: not decided here, so any other answer fails closed")
+    for ty, variant in ((DAY + "MonthdayRange", "Date"), (DAY + "WeekDayRange", "Holiday")):
+        f = prog.impl_method_one("MakeCanonical", "try_make_canonical", self_adt=ty)
+        arms = flow.enum_arms(prog, f, ty)
+        if not arms or variant not in arms[0]["arms"]:
+            r11.anchor_missing("the arm of %s::%s in try_make_canonical" % (ty.split("::")[-1], variant))
+            continue
+        vals = flow.shape_in(f, 0, arms[0]["arms"][variant]["blocks"])
+        r11.check(vals == ["Option::None{}"], {"type": ty.split("::")[-1], "variant": variant, "folded": "never"}, "C07.R11:%s::%s" % (ty.split("::")[-1], variant),
+                  "try_make_canonical folds %s::%s into the paving on some path (%s): a dimension of whole months / plain weekdays cannot say which days of which years the selector meant (`Jan 01-Feb 28` is not `Jan-Feb` in a leap year) - not decided, failing closed" % (ty.split("::")[-1], variant, [v[:80] for v in vals][:3]), lib.where_of(f))
+    r11.floor(2)
+
